@@ -100,6 +100,9 @@ func (rl *ruleLoader) commentTextEnd(lex lexeme.LexEvent) {
 }
 
 func (rl *ruleLoader) ruleKeyOrObjectEnd(lex lexeme.LexEvent) {
+	if isNoteInsideAnnotation(lex) {
+		return
+	}
 	switch lex.Type() {
 	case lexeme.ObjectKeyBegin, lexeme.NewLine:
 	case lexeme.ObjectKeyEnd:
@@ -113,6 +116,9 @@ func (rl *ruleLoader) ruleKeyOrObjectEnd(lex lexeme.LexEvent) {
 }
 
 func (rl *ruleLoader) objectEndAfterRuleName(lex lexeme.LexEvent) {
+	if isNoteInsideAnnotation(lex) {
+		return
+	}
 	switch lex.Type() {
 	case lexeme.ObjectKeyBegin, lexeme.ObjectValueEnd, lexeme.NewLine:
 	case lexeme.ObjectKeyEnd:
@@ -126,10 +132,30 @@ func (rl *ruleLoader) objectEndAfterRuleName(lex lexeme.LexEvent) {
 }
 
 func (rl *ruleLoader) ruleValueBegin(lex lexeme.LexEvent) {
-	if lex.Type() != lexeme.ObjectValueBegin {
+	if isNoteInsideAnnotation(lex) {
+		return
+	}
+	switch lex.Type() {
+	case lexeme.NewLine:
+		// A line break between the rule name, the colon and the value.
+	case lexeme.ObjectValueBegin:
+		rl.stateFunc = rl.ruleValue
+	default:
 		panic(errors.ErrLoader)
 	}
-	rl.stateFunc = rl.ruleValue
+}
+
+// isNoteInsideAnnotation tells a lexeme of a "// note" written between the rules
+// of a multi-line annotation. Such a note says nothing about the rules.
+func isNoteInsideAnnotation(lex lexeme.LexEvent) bool {
+	switch lex.Type() {
+	case lexeme.InlineAnnotationBegin,
+		lexeme.InlineAnnotationTextBegin,
+		lexeme.InlineAnnotationTextEnd,
+		lexeme.InlineAnnotationEnd:
+		return true
+	}
+	return false
 }
 
 func (rl *ruleLoader) ruleValue(lex lexeme.LexEvent) {
